@@ -1048,4 +1048,57 @@ example : at3 (scanFrames 2 2 false [1, 2, 3, 4]) 0 0 2 = 0 ∧ [1, 2, 3, 4].get
 -- `image_total_kymo` needs `0 < P`
 example : (kymoImage 0 [1, 2]).flatten.sum = 0 := by decide
 
+/-! ## Round H: `Scan.shape` / `Scan.num_frames` do not depend on what was asked before
+
+`Scan.num_frames` stores the reconstructed frame count in the metadata (`ScanState.mf`); `Scan.shape` goes through
+it, `get_image` does not.  Whatever sequence of queries an object has answered, its shape / frame count are the ones
+a NEW object reports — those the property states (metadata; reconstructed from the info wave when it says zero). -/
+
+/-- `Scan.shape` and `Scan.num_frames` asked of a scan in ANY state reachable by queries answer what a new scan
+    answers: `scanShape` / `numFrames` of the metadata and the info wave. -/
+theorem scan_meta_history_independent (axes : Axes) (iw : List Nat) (ss : Streams) (st : ScanState) (qs : List Nat)
+    (q : Nat) (hq : q = 4 ∨ q = 5) :
+    (scanQuery axes iw ss (scanStateAfter axes iw ss st qs) q).2 = scanPureAnswer axes st.mf iw ss q := by
+  have key := scanStateAfter_numFrames axes iw ss qs st
+  rcases hq with rfl | rfl
+  · simp only [scanQuery, scanPureAnswer, queryScanShape_eq, if_true]
+    rw [scanShape_congr axes iw _ _ key]
+  · simp only [scanQuery, scanPureAnswer, queryNumFrames_eq, if_true, show ¬ (5 = 4) by decide, if_false, key]
+
+/-- A metadata query leaves the confocal state (start, memoised images) alone; an image query leaves the metadata
+    alone and is answered as `query` answers it. -/
+theorem scan_meta_queries_separate (axes : Axes) (iw : List Nat) (ss : Streams) (st : ScanState) (q : Nat) :
+    ((q = 4 ∨ q = 5) → (scanQuery axes iw ss st q).1.obj = st.obj) ∧
+    (q < 4 → (scanQuery axes iw ss st q).1.mf = st.mf ∧
+      (scanQuery axes iw ss st q).2 = (query (.scan axes) iw ss st.obj q).2 ∧
+      (scanQuery axes iw ss st q).1.obj = (query (.scan axes) iw ss st.obj q).1) := by
+  constructor
+  · rintro (rfl | rfl) <;> simp [scanQuery]
+  · intro h
+    have h4 : q ≠ 4 := by omega
+    have h5 : q ≠ 5 := by omega
+    simp [scanQuery, h4, h5]
+
+/-- For a continuous scan (metadata frame count 0) the shape reported after ANY sequence of queries is the shape of
+    the image `get_image` returns for a colour that is absent or reaches the end of the info wave, plus the colour
+    axis (with `scan_shape_matches_image`). -/
+theorem scan_shape_query_matches_image (fa P sa L : Nat) (hax : fa ≠ sa) (hP : 2 ≤ P) (hL : 2 ≤ L) (iw : List Nat)
+    (chan : List Int) (hc : chan.length = 0 ∨ iw.length ≤ chan.length) (im : Image)
+    (h : scanGetImage [(fa, P), (sa, L)] iw chan = .ok im) (ss : Streams) (st : ObjState) (qs : List Nat) :
+    (scanQuery [(fa, P), (sa, L)] iw ss (scanStateAfter [(fa, P), (sa, L)] iw ss ⟨0, st⟩ qs) 4).2
+      = Verif.Proto.showNatList (im.shape ++ [3]) := by
+  rw [scan_meta_history_independent _ _ _ _ _ 4 (Or.inl rfl)]
+  simp only [scanPureAnswer, if_true]
+  rw [scan_shape_matches_image fa P sa L hax hP hL iw chan hc im h]
+
+-- a continuous two-frame scan asked its shape first, after `num_frames`, and after an image: always [2,2,2,3]
+example : runScanSeq [(1, 2), (0, 2)] [1, 2, 2, 0, 2, 2, 2] [⟨0, [1, 2, 3, 9, 4, 5, 6]⟩, ⟨0, []⟩, ⟨0, []⟩]
+    ⟨0, ObjState.fresh⟩ [4, 5, 4] = ["[2,2,2,3]", "2", "[2,2,2,3]"] := by decide
+example := scan_shape_query_matches_image 1 2 0 2 (by decide) (by decide) (by decide) [1, 2, 2, 0, 2, 2, 2]
+  [1, 2, 3, 9, 4, 5, 6] (Or.inr (by decide)) ⟨[2, 2, 2], [3, 4, 3, 5, 6, 0, 0, 0]⟩ (by decide)
+  [⟨0, [1, 2, 3, 9, 4, 5, 6]⟩] ObjState.fresh [0, 5]
+/-- the memo is real state: `num_frames` changes the metadata value of a continuous scan (0 -> 2), `get_image` does not -/
+example : (scanStateAfter [(1, 2), (0, 2)] [1, 2, 2, 0, 2, 2, 2] [] ⟨0, ObjState.fresh⟩ [5]).mf = 2 ∧
+    (scanStateAfter [(1, 2), (0, 2)] [1, 2, 2, 0, 2, 2, 2] [] ⟨0, ObjState.fresh⟩ [0]).mf = 0 := by decide
+
 end Verif.C02
